@@ -497,6 +497,7 @@ class Filtration(PoupoolActor):
         logger.info("Entering closing state")
         self.__encoder.filtration_state("closing")
         self.__actor_halt("Disinfection")
+        self.__actor_halt("Swim")
         # stop the pumps to avoid perturbation in the water while shutter is moving
         self.__devices.get_valve("gravity").on()
         self.__devices.get_pump("boost").off()
